@@ -366,6 +366,39 @@ def grammar_tree_stream(ctx, count, repl=""):
     return out
 
 
+def sizes_stream(ctx, repl=""):
+    """patterns and inputs whose sizes lie just past 64, 128 and 255: long inputs for small patterns (matches
+    that start or end beyond those offsets), counted repeats, many alternatives, many class members, many
+    groups.  Own generator state."""
+    rng_z = random.Random(ctx.seed * 86028157 + 71)
+    out = []
+    for _ in range(ctx.n(60, 600)):
+        al = rng_z.choice(["ab", "abc"])
+        g = gen.Gen(rng_z, alphabet=al, feats={"cls", "grp", "alt", "quant", "nc", "reluctant", "anchor"})
+        _, p_ = g.pattern(rng_z.randint(1, 5))
+        for n_ in (65, 129, 257):
+            base = "".join(rng_z.choice(al[:2]) for _ in range(n_))
+            out.append(("xpath", rng_z.choice(["", "", "i", "m"]), p_, base, repl))
+            out.append(("xpath", "", p_, base[:n_ - 3] + al[-1] + base[n_ - 3:], repl))
+    for n_ in (63, 64, 65, 127, 128, 129, 255, 256, 257, 300):
+        out.append(("xpath", "", "^a{%d}$" % n_, "a" * n_, repl))
+        out.append(("xpath", "", "^a{%d}$" % n_, "a" * (n_ - 1), repl))
+        out.append(("xpath", "", "(?:ab){%d}c" % n_, "ab" * n_ + "c", repl))
+        out.append(("xpath", "", "[ab]{%d,}c" % n_, "ab" * (n_ // 2) + "c", repl))
+        out.append(("xpath", "", "x" * n_ + "y", "x" * n_ + "y", repl))
+        out.append(("xpath", "", "x" * n_ + "y", "x" * (n_ + 1) + "y", repl))
+        alts = "|".join("a%d" % k for k in range(n_))
+        out.append(("xpath", "", "^(?:%s)$" % alts, "a%d" % (n_ - 1), repl))
+        out.append(("xpath", "", "^(?:%s)$" % alts, "a%d" % n_, repl))
+        members = "".join(chr(0x100 + 2 * k) for k in range(n_))
+        out.append(("xpath", "", "^[%s]+$" % members, chr(0x100 + 2 * (n_ - 1)) + chr(0x100), repl))
+        out.append(("xpath", "", "^[%s]+$" % members, chr(0x100 + 2 * n_ - 1), repl))
+        out.append(("xpath", "", "b*[^%s]" % members, "bb", repl))
+        out.append(("xpath", "", "(a)" * n_ + "\\%d" % n_, "a" * (n_ + 1), repl))
+        out.append(("xpath", "", "(a)" * (n_ - 1) + "(b)\\%d" % n_, "a" * (n_ - 1) + "bb", repl))
+    return out
+
+
 # ================================================================ C01
 def slice_C01(ctx):
     rng = ctx.rng
@@ -405,9 +438,19 @@ def slice_C01(ctx):
     # which it does not exclude), with and without flag s
     for pat_ in ["^.$", ".", "a.b", "^.+$", "^(?:.|x)*$", "[^a].", "^.{2}$", "^..?$"]:
         for fl in ("", "s", "m", "i"):
-            for ch in "\t\n\x0b\x0c\r\x0e\x1c\x1e\x85\u2028\u2029 ":
+            for ch in "\t\n\x0b\x0c\r\x0e\x1c\x1e\x85\u2028\u2029 \x00\x7f\x80\u07ff\u0800\ud7ff\ue000\uffff\U00010000\U0010ffff":
                 for inp in (ch, "a" + ch + "b", ch + ch, "x" + ch):
                     tuples.append(("xpath", fl, pat_, inp, "", "dot-controls"))
+    # an alternation whose first branch is empty (or zero-width) and whose other branches have no fixed
+    # length, bare, quantified, after ^ and before a literal
+    for pat_ in ["^(?:|a+)b", "^(?:|a+)*$", "^(|a+|b*){2,}$", "(?:|a*b)c", "x(?:|a+)+y", "^(?:^|a+)b", "(?:|a+|bb)b", "^(?:|a+)?b$", "(?:$|a+b?)b",
+                 "^(?:|[ab]+)a$", "^(?:a+|)b", "(?:|a{2,})b"]:
+        for inp in gen.all_strings("ab", 4) + ["xy", "xaay", "aabc", "bc", "c"]:
+            tuples.append(("xpath", "", pat_, inp, "", "empty-first"))
+    # sizes just past 64 / 128 / 255 of something: input length and offsets, repeat counts, number of
+    # alternatives, number of class members, number of groups (own generator state)
+    for d, fl, pat, inp, _ in sizes_stream(ctx):
+        tuples.append((d, fl, pat, inp, "", "sizes"))
     # (b) seeded random structured patterns incl. back-references
     for d, fl, pat, inp, ast in random_stream(ctx, ctx.n(24000, 240000), shapes=0.3, per_pattern=5):
         tuples.append((d, fl, pat, inp, "", "random"))
@@ -732,6 +775,14 @@ def slice_C04(ctx):
         tuples.append((d, fl, pat, inp, "", "staleend"))
     for d, fl, pat, inp, _ in lines_stream(ctx):
         tuples.append((d, fl, pat, inp, "", "lines"))
+    for d, fl, pat, inp, _ in sizes_stream(ctx):
+        tuples.append((d, fl, pat, inp, "", "sizes"))
+    # a pattern that starts with a literal, under flag i, on inputs that hold it only in the other case (or in
+    # mixed case): every API has to find the same occurrences
+    for pat_ in ["sep", "ab", "a+b", "ab|cd", "x(?:y|z)", "\u00e9t", "\u03c3\u03c4"]:
+        for fl in ("i", "im", ""):
+            for inp in ("oneSEPtwoSePthree", "ABab-Ab", "AAB", "xCDx", "XY xz Xz", "\u00c9T\u00e9t", "\u03a3\u03a4 \u03c3\u03a4", "sepSEP", "", "S"):
+                tuples.append(("xpath", fl, pat_, inp, "", "other-case"))
     # a single separator character as the pattern, on inputs with leading, doubled and trailing separators:
     # the empty tokens between them are tokens, and the three APIs see the same matches
     for sep, pat_ in ((" ", " "), (",", ","), ("-", "-"), (";", ";"), ("|", "\\|"), (" ", "\\s"), ("a", "a"), (" ", "[ ]"), (".", "\\.")):
@@ -1015,7 +1066,13 @@ def revisit_stream(ctx, count):
 
 
 def slice_C05(ctx):
-    cases = mk_cases(arbitrary_stream(ctx) + precond_stream(ctx, ctx.n(2000, 20000)) + capalt_stream(ctx, ctx.n(1500, 15000)) + lines_stream(ctx, "-"), "mrta")
+    # a group inside a loop that is entered again and fails, then a back-reference to it (D30)
+    reentry = []
+    for p_ in ["(x|(a))|(\\2b|([ab])[ab]\\4?){2}", "(?:([ab])[ab]\\1?){2}", "(?:(a)|b\\1?){2,3}", "(?:([ab])(?:b|$)\\1?)+a", "(?:(a)b?\\1*){2}",
+               "(?:x|(a))*(?:\\1b|([ab])[ab]\\2?){2}", "((a)|b)+\\2?(?:\\2a)?", "(?:(a+)b|\\1?b){2,}"]:
+        for inp in gen.all_strings("ab", 4) + ["abab", "babab", "aabba"]:
+            reentry.append(("xpath", "", p_, inp, "[$1]"))
+    cases = mk_cases(arbitrary_stream(ctx) + precond_stream(ctx, ctx.n(2000, 20000)) + capalt_stream(ctx, ctx.n(1500, 15000)) + lines_stream(ctx, "-") + reentry, "mrta")
     code, model, dis = run_slice(cases)
     violations, nontrivial = [], set()
     hist = collections.Counter()
@@ -1054,6 +1111,11 @@ def slice_C06(ctx):
         for q in quants:
             for inp in ("", "a", "b", "abc", "xbx", "c"):
                 tuples.append(("xpath", "", pre + "\\1" + q, inp, "-"))
+    # a greedy repeat over a fixed-length unit of 255, 256, 257 and 512 characters that has to step back
+    for u in (255, 256, 257, 512):
+        for p_ in ("(?:a{%d})*b" % u, "(?:.{%d})*;" % u, "(?:[ab]{%d})+a" % u, "x(?:a{%d}){0,3}a" % u):
+            for inp in ("ab", "a" * u + "b", "a" * (u + 3), "x" + "a" * (2 * u), ";", "a" * u + ";" + "b" * u + ";"):
+                tuples.append(("xpath", "", p_, inp, "-"))
     # counted repeats whose count exceeds what is left of the input, over terms that are zero-width only
     # at run time (an anchor alternative tried second, a back-reference to an empty group): the work must
     # follow the input, not the number in the quantifier
@@ -1197,6 +1259,14 @@ def flag_stream(ctx, dialects):
     for f in gen.all_strings("smixq;gkKzS", 3):
         for d in dialects:
             tuples.append((d, f, "a", "", "", "flags"))
+    # flag letters are the ASCII letters themselves: not characters that share their low byte, their
+    # full-width or dotted / dotless forms, nor their upper case
+    odd = ["\u0169", "\u016d", "\u0173", "\u0171", "\u0178", "\u0269", "\uff49", "\uff4d", "\u0131", "\u0130", "I", "M", "X", "Q",
+           "\U00010069", "\u2170", "\u00ed"]
+    for o in odd:
+        for f in (o, "i" + o, o + "m", o + ";", "q" + o):
+            for d in dialects:
+                tuples.append((d, f, "a", "A", "", "flags-odd"))
     return tuples
 
 
@@ -1925,6 +1995,20 @@ def slice_C14(ctx):
         cases.append(c)
         keep.append((str(cid), exp))
         cid += 1
+    # '#' is an ordinary character under flag x: it starts no remark
+    for (p, inp, exp) in (("a#b", "a", "0"), ("a#b", "a#b", "1"), ("a #b", "a#b", "1"), ("a#\nb", "a#b", "1"), ("a#\nb", "ab", "0"), ("#", "#", "1"),
+                          ("a # b\n c", "a#bc", "1"), ("a # b\n c", "ac", "0"), ("# a", "a", "0"), ("[#] a", "#a", "1")):
+        c = Case(cid, "xpath", "x", p, inp, "", "m", tag="not-ws")
+        cases.append(c)
+        keep.append((str(cid), exp))
+        cid += 1
+    for p in ("a #(", "a#(", "#)", "a # [", "a#*"):
+        for inp in ("a", "a#"):
+            a = Case(cid, "xpath", "", p.replace(" ", ""), inp, "<$0>", "mrta", tag="orig")
+            b = Case(cid + 1, "xpath", "x", p, inp, "<$0>", "mrta", tag="ws")
+            cases += [a, b]
+            pairs.append((str(cid), str(cid + 1)))
+            cid += 2
     for w in NOT_WS:
         for (p, inp, exp) in (("a" + w + "b", "ab", "0"), ("a" + w + "b", "a" + w + "b", "1")):
             c = Case(cid, "xpath", "x", p, inp, "", "m", tag="not-ws")
@@ -1961,8 +2045,10 @@ C15_PATTERNS = [
     # more than nine groups of which none beyond the ninth takes part in some matches: whether $10 is group 10
     # or group 1 followed by 0 depends on the pattern, not on the match at hand
     ("(a)(b)(c)(d)(e)(f)(g)(h)(i)(j)?(k)?", 11),
+    # groups the compiler can discard (quantified {0}) still count as groups of the pattern
+    ("(a)(b){0}(c)", 3), ("(a)(b)(c)(d)(e)(f)(g)(h)(i){0}(j)", 10), ("(a)(){0}(c)(d)(e)(f)(g)(h)(i)(j)(k){0,0}", 11),
 ]
-C15_INPUTS = ["", "xyz", "ab", "xabcdefghijklx", "abcdefghijklabcdefghij", "bcacab", "aab ac", "abcdefghi", "abcdefghij-abcdefghi"]
+C15_INPUTS = ["", "xyz", "ab", "xabcdefghijklx", "abcdefghijklabcdefghij", "bcacab", "aab ac", "abcdefghi", "abcdefghij-abcdefghi", "xacx", "abcdefghj", "acdefghij"]
 
 
 def slice_C15(ctx):
@@ -1984,7 +2070,7 @@ def slice_C15(ctx):
     cid = 0
     for pat, k in C15_PATTERNS:
         for inp in C15_INPUTS:
-            rs = repls if (not ctx.quick or k in (1, 11, 12)) else rng.sample(repls, 160)
+            rs = repls if (not ctx.quick or k in (1, 11, 12)) else rng.sample(repls, 160) + ['$10', '<$10>', '[$1|$2|$3]', '$3', '$11', '$2$3']
             for r in rs:
                 c = Case(cid, "xpath", "", pat, inp, r, "ra", tag=f"groups={k}")
                 cases.append(c)
@@ -2168,13 +2254,17 @@ def slice_C17(ctx):
     # the common subset: identical results under both dialects
     cases, pairs = [], []
     cid = 10 ** 7
-    ext = ["a*?", "a+?b", "a??", "a{1,2}?", "(?:a)", "(?:a|b)c", "(a)\\1", "\\$", "a\\$b", "(a)(b)\\2", "^a", "a$", "^", "$", "a^b", "a$b", "[$^]", "a|^", "(^)", "\\^"]
+    ext = ["a*?", "a+?b", "a??", "a{1,2}?", "(?:a)", "(?:a|b)c", "(a)\\1", "\\$", "a\\$b", "(a)(b)\\2", "^a", "a$", "^", "$", "a^b", "a$b", "[$^]", "a|^", "(^)", "\\^",
+           # ^ and $ as quantified ordinary characters
+           "^+a", "^{2}a", "^?a", "^*b", "a$+", "$+b", "(^)+a", "^+$+"]
     extra = []
     for p in ext:
-        for inp in ("", "a", "ab", "aa", "a$b", "a^b", "^a", "a$", "$", "^", "$^", "x^ay", "b\n^a", "a$\nb"):
+        for inp in ("", "a", "ab", "aa", "a$b", "a^b", "^a", "a$", "$", "^", "$^", "x^ay", "b\n^a", "a$\nb", "b^a", "b^^a", "^^a", "ba$$", "x$$b", "^$"):
             # the flags do not change what is syntax: ^ and $ stay ordinary characters under m as well
             for fl in ("", "m", "ms", "i"):
                 extra.append(("xsd", fl, p, inp, "-", "ext"))
+                # the XPath spelling of what the XSD pattern means: ^ and $ escaped
+                extra.append(("xpath", fl, p.replace("\\^", "^").replace("^", "\\^").replace("$", "\\$"), inp, "-", "ext-twin"))
             extra.append(("xpath", "", p, inp, "-", "ext"))
     for d, fl, pat, inp, ast in random_stream(ctx, ctx.n(6000, 60000), feats={"cls", "esc", "grp", "alt", "quant", "dot"},
                                               flagsets=["", "i", "s", "is", "x"], per_pattern=3, dialects=("xsd",)):
@@ -2196,6 +2286,16 @@ def slice_C17(ctx):
                 violations.append(viol(byid[a], rb, ra, "a pattern of the common subset behaves differently under the two dialects",
                                        None, same_as_model(code, model, a) and same_as_model(code, model, b)))
     xpath_only = {"a*?", "a+?b", "a??", "a{1,2}?", "(?:a)", "(?:a|b)c", "(a)\\1", "\\$", "a\\$b", "(a)(b)\\2"}
+    twins = {(c.flags, c.pattern, c.input): c for c in ext_cases if c.dialect == "xpath" and c.tag == "ext-twin"}
+    for c in ext_cases:
+        if c.dialect == "xsd" and c.pattern not in xpath_only:
+            t = twins.get((c.flags, c.pattern.replace("\\^", "^").replace("^", "\\^").replace("$", "\\$"), c.input))
+            if t is not None:
+                rx, rt = code.get(c.cid, {}), code.get(t.cid, {})
+                if rx.get("C") == "ok" and rt.get("C") == "ok" and any(rx.get(k) != rt.get(k) for k in ("M", "R", "T", "A")):
+                    violations.append(viol(c, {k: rt.get(k) for k in ("M", "R", "T", "A")}, {k: rx.get(k) for k in ("M", "R", "T", "A")},
+                                           "^ / $ do not behave as ordinary characters in the XSD dialect (compared with the XPath pattern %r)" % t.pattern,
+                                           None, same_as_model(code, model, c.cid)))
     for c in ext_cases:
         r = code.get(c.cid, {})
         same = same_as_model(code, model, c.cid)
@@ -2254,7 +2354,9 @@ def slice_C18(ctx):
              ("xpath", "m", "(^|b)", "ab^\n"), ("xsd", "m", "(^|b)", "ab^\n"),
              # a class that is not the first term, on inputs that mix a BMP character with supplementary-plane
              # characters whose low 16 bits are the same
-             ("xpath", "", "x[A-Z]", "xA\U00010041\U00020041Z"), ("xpath", "", "-[0-9]+", "-17\U00010037\U00010031a")]
+             ("xpath", "", "x[A-Z]", "xA\U00010041\U00020041Z"), ("xpath", "", "-[0-9]+", "-17\U00010037\U00010031a"),
+             # patterns whose parentheses stand at the same offsets but nest differently or mean something else
+             ("xpath", "", "(?:a(b?))", "ab"), ("xpath", "", "(aaa(b?))", "ab"), ("xpath", "", "(xy)(z\\))", "xyz)"), ("xpath", "", "(a\\)(b?))", "a)b")]
     ops, expect_cases = [], []
     handles = 0
     live = []
@@ -2282,6 +2384,24 @@ def slice_C18(ctx):
             ops.append(("m", r, inp))
         else:
             ops.append(("r", r, inp, rng.choice(["-", "$0", "[$1]"])))
+    # a systematic tail: every regex of the pool, in pool order, analyzed and tokenized to the end on a few
+    # inputs over its own alphabet (the random part reaches a given (regex, input, API) only now and then)
+    for h in live:
+        ops.append(("D", h[1]))
+    live = []
+    for r in range(len(pool)):
+        al = pool[r][3]
+        sys_inps = [al[:1] * 3, al[:1] * 4 + al[1:2], (al[:2] * 2)[:4], al[:3], "".join(rng.choice(al) for _ in range(5)), ""]
+        for inp in sys_inps:
+            for which in ("A", "T"):
+                ops.append((which, r, inp, handles))
+                for _ in range(2 * len(inp) + 3):
+                    ops.append(("N", handles))
+                ops.append(("D", handles))
+                handles += 1
+            ops.append(("m", r, inp))
+            ops.append(("r", r, inp, "[$1]"))
+    nops = len(ops)
     lines = []
     for i, (d, f, p, _al) in enumerate(pool):
         lines.append("\t".join(["R", str(i), d, tie.enc(f), tie.enc(p)]))
@@ -2407,6 +2527,8 @@ def slice_C19(ctx):
             "^(a|ab)+?\\1$", "(a|ab)+?b\\1", "^((a|ab)b?)+?\\2$", "^(a|ab)*?\\1$", "^(?:(a|ab)b?)+?\\1$", "^(a+?b?)+?\\1$",
             "^(a|ab){1,2}?\\1$", "^(ab|a)+?\\1b?$",
             # a reluctant repeat over a one-character body whose later round can bypass the group
+            # a repeat directly followed by a back-reference has to be able to give characters back to it
+            "(a)a*\\1", "^(a|b)[ab]*\\1c$", "(b)b*\\1", "(a)[ab]+\\1", "(a)a*?\\1", "(a)a{1,3}\\1b", "([ab])[ab]*\\1$", "(a)a*\\1a",
             "^(?:b|(a)){1,2}?\\1c$", "(?:b|(a)){1,3}?\\1c", "^(?:(a)|b){2}?\\1$", "(?:b|(a))+?\\1c", "^(?:(a)|b){1,3}?b\\1$", "(?:(a)|[bc]){2,3}?\\1"]
     for p in hand:
         for fl in ("", "i"):
